@@ -99,20 +99,17 @@ fn update_oracle_msgs(
     };
 
     let post_rate_msg_json = serde_json::to_string(&post_rates_msg).unwrap();
-    messages.push(
-        MsgExecuteContract {
-            sender: env.contract.address.to_string(),
-            contract: config
-                .protocol_chain_config
-                .oracle_address
-                .clone()
-                .unwrap()
-                .to_string(),
-            msg: post_rate_msg_json.as_bytes().to_vec(),
-            funds: vec![],
-        }
-        .into(),
-    );
+    if let Some(oracle_address) = &config.protocol_chain_config.oracle_address {
+        messages.push(
+            MsgExecuteContract {
+                sender: env.contract.address.to_string(),
+                contract: oracle_address.to_string(),
+                msg: post_rate_msg_json.as_bytes().to_vec(),
+                funds: vec![],
+            }
+            .into(),
+        );
+    }
 
     Ok(messages)
 }
